@@ -88,8 +88,9 @@ func (f *Frame) call(in ssa.Instruction, cc *ssa.CallCommon, v ssa.Value) {
 		for _, a := range cc.Args {
 			args = append(args, f.val(a))
 		}
-		f.safety("nil", fmt.Sprintf("(not (= (i_tag %s) 0))", recv), in)
+		// (the caller-side rules first: the nil check below refines the path to a non-nil receiver)
 		f.callPreObls(cc.Method.Name(), true, append([]ssa.Value{cc.Value}, cc.Args...), append([]string{recv}, args...), in, site)
+		f.safety("nil", fmt.Sprintf("(not (= (i_tag %s) 0))", recv), in)
 		outs := f.invoke(cc, recv, args, in, site)
 		f.finishCall(outs, v, cc.Signature())
 		return
